@@ -633,6 +633,16 @@ func connScenario(r *rand.Rand, thorough bool, single bool, stallAt int) {
 			}
 		}(g)
 	}
+	if nG > 1 && stallAt < 0 && r.Intn(6) == 0 {
+		// the application closes the Conn while calls are in flight
+		after := time.Duration(r.Intn(15)) * time.Millisecond
+		wg.Add(1)
+		go func() {
+			defer wg.Done()
+			time.Sleep(after)
+			conn.Close()
+		}()
+	}
 	wg.Wait()
 	evs := kafka.VerifStop()
 	kafka.VerifSetSink(nil)
@@ -690,6 +700,8 @@ func emitMux(sent []sentFrame, reqs []muxReq, evs []kafka.VerifEvent, writeTag m
 				}
 				item = fmt.Sprintf("%s%d:%d", k, uint32(id), uint32(seen))
 			}
+		case "C.Closed":
+			item = "K"
 		case "C.Body":
 			o := e.Args[2]
 			if o == "unlock" || o == "short" {
